@@ -496,13 +496,22 @@ pub fn run(ctx: &Ctx) -> i32 {
     let mut transitions = 0;
     for (fi, (fam, stride)) in base.into_iter().enumerate() {
         let fam_g = crate::plans::ExpandOwned {
-            label: "id layouts dense/gap3/gap130".into(),
+            label: "id layouts dense/gap3/gap130, candidates listed in descending id order".into(),
             base: fam,
-            mult: 3,
+            mult: 4,
             f: Box::new(|c, k| match k {
                 0 => c,
                 1 => with_gaps(&c, 3),
-                _ => with_gaps(&c, 130),
+                2 => with_gaps(&c, 130),
+                _ => {
+                    // the provider lists every package's candidates in descending id order
+                    let mut c = c;
+                    for n in c.u.names.iter_mut() {
+                        n.cands.reverse();
+                    }
+                    c.tag = format!("{} cands-reversed", c.tag);
+                    c
+                }
             }),
         };
         let opts = SweepOpts {
